@@ -266,8 +266,11 @@ def run_family(ctx, name, depth, names, rots, timeout, type_annots=False):
     TYPE_ANNOTS[0] = type_annots
     gen = {'MichEntryMC': MC % to_tla(BASES)}
     cfg = CFG % (depth, ', '.join('"%s"' % n for n in names), ', '.join(map(str, rots)))
-    r = ctx.tlc('MichEntryMC', cfg, name=name, gen=gen, timeout=timeout, coverage=False)
+    cov = depth <= 1      # action coverage (vacuity) on the small family only: -coverage is slow on the big ones
+    r = ctx.tlc('MichEntryMC', cfg, name=name, gen=gen, timeout=timeout, coverage=cov)
     ctx.require_no_violation(r, name)
+    if cov:
+        ctx.require_coverage(r, ['PickValue', 'PickPair', 'Wrap', 'Descend'])
     types = {}
     nrec = 0
     for v in r.printed:
@@ -281,7 +284,7 @@ def run_family(ctx, name, depth, names, rots, timeout, type_annots=False):
             d['split'].append((v[3][0], v[5]))                 # (full value, model pair)
         else:
             d['join'].append((v[3][0], v[3][1], v[4], v[5]))   # (entrypoint, argument, full value, model pair of the full value)
-    if not types or any(d['list'] is None for d in types.values()):
+    if not types or any(d['list'] is None or not d['split'] or not d['join'] for d in types.values()):
         raise Exception('incomplete export from TLC (%d records)' % nrec)
     for T in sorted(types, key=repr):
         d = types[T]
